@@ -5,10 +5,17 @@ import Driver.Common
 
      auto 0|1                 dump the whole tree after every mutating op (default 1) or only `n=`
      new T <kind> [k v]…      kind = key kind i (Int) | s (String) | w (24-byte struct `a,b,c`), then value kind
-                              (none) Int | 3 (24-byte struct `x,y,z`) | 5 (40-byte struct)
+                              (none) Int | s (String) | 3 (24-byte struct `x,y,z`) | 5 (40-byte struct)
      set T k v      rem T k      get T k      mem T k      len T      resize T n
      assign T S               copy T S       iter T       riter T      del T        check T
      remroot T  /  rem2 T     rem of the root's key / of the key of the first node (preorder) with two children
+     setk T k v               set(t, K, v), K = the tree's own key object for k        (second layer: `AOp`, `stepA`)
+     setv T k k2              set(t, k, get(t, k2))            setkv T k k2    set(t, K, get(t, k2))
+     getk T k / memk T k / remk T k      get / mem / rem given the tree's own key object
+     walk T v                 foreach (K in t) set(t, K, v)    walkself T      foreach (K in t) set(t, K, get(t, K))
+                              (run as one `setA` step per key of the forward iteration; one O line)
+     assignmap T <kind> [k v]…   assign(t, obj), obj a map that is not a Tree, iterating the pairs in this order
+     newodd T <kind> …        new(Tree, K, V, …) with an odd number of arguments: FormatError
 
    dump = `n=<nitems> ok=<invariants hold> h=<height> sz=<ksize>/<vsize> t=<preorder (colour key:value left right) | #hash when n>40>` -/
 open Cello.RB
@@ -32,7 +39,7 @@ def keyHash : Key → UInt64
 def treeHash : KT → UInt64
   | .nil => 0x9E3779B97F4A7C15
   | .node c l k v r =>
-    [if c = .R then 1 else 0, keyHash k, wordsHash v, treeHash l, treeHash r].foldl mixstep fnvInit
+    [if c = .R then 1 else 0, keyHash k, keyHash v, treeHash l, treeHash r].foldl mixstep fnvInit
 
 def hex16 (x : UInt64) : String :=
   let d := Nat.toDigits 16 x.toNat
@@ -48,7 +55,7 @@ def showKey : Key → String
 def preorder : KT → String
   | .nil => "."
   | .node c l k v r =>
-    "(" ++ (if c = .R then "R" else "B") ++ showKey k ++ ":" ++ showWords v ++ " " ++ preorder l ++ " " ++ preorder r ++ ")"
+    "(" ++ (if c = .R then "R" else "B") ++ showKey k ++ ":" ++ showKey v ++ " " ++ preorder l ++ " " ++ preorder r ++ ")"
 
 def rootKey : KT → Option Key
   | .nil => none
@@ -73,7 +80,7 @@ def setFixTags : KT → Path Key Val → List String
     else if g.dir = f.dir then ["set:outer-rotation"] else ["set:inner-rotation"]
 
 def insTags : KT → Path Key Val → Key → List String
-  | .nil, p, k => setFixTags (.node .R .nil k [] .nil) p
+  | .nil, p, k => setFixTags (.node .R .nil k (.i 0) .nil) p
   | .node c l nk nv r, p, k =>
     match orient CelloGen.Tree.setDescent Key.cmp nk k with
     | .eq => ["set:update"]
@@ -130,6 +137,28 @@ def opTags (st : Store KTree) : Op Key Val → List String
     | none => []
   | _ => []
 
+def opTagsA (st : Store KTree) : AOp Key Val → List String
+  | .base op => opTags st op
+  | .setA t ka va =>
+    (match ka with | .own _ => ["set:own-key-object"] | .val _ => []) ++
+    (match va with | .own _ => ["set:own-value-object"] | .val _ => []) ++
+    (match Store.get? st t with
+     | some m =>
+       (match m.keyArg Key.cmp ka, m.valArg Key.cmp va with
+        | some (k, kh), some (_, vh) =>
+          let tags := insTags m.root [] k
+          tags ++ (if tags.contains "set:update" && kh.isSome then ["set:key-assigned-from-itself"] else []) ++
+            (if tags.contains "set:update" && vh == some k then ["set:value-assigned-from-itself"] else []) ++
+            (if vh.isSome && vh != some k then ["set:value-of-another-node"] else [])
+        | _, _ => [])
+     | none => [])
+  | .getK .. => ["get:own-key-object"]
+  | .memK .. => ["mem:own-key-object"]
+  | .remK t k =>
+    "rem:own-key-object" :: (match Store.get? st t with | some m => remTags m.root [] k | none => [])
+  | .assignMap .. => ["assign:from-foreign-map"]
+  | .newOdd _ => ["new:odd-argument-count"]
+
 def bumpAll (tags : List String) (acc : List (String × Nat)) : List (String × Nat) :=
   tags.foldl (fun acc tag =>
     if acc.any (·.1 = tag) then acc.map (fun e => if e.1 = tag then (e.1, e.2 + 1) else e) else acc ++ [(tag, 1)]) acc
@@ -144,11 +173,11 @@ def dumpTree (m : KTree) : String :=
 def showItems (l : List (Key × Val)) (term : Bool) : String :=
   let body :=
     if l.length > bigLimit then
-      s!"#{l.length}:" ++ hex16 (l.foldl (fun h kv => mixstep (mixstep h (keyHash kv.1)) (wordsHash kv.2)) fnvInit)
-    else " ".intercalate (l.map (fun kv => showKey kv.1 ++ ":" ++ showWords kv.2))
+      s!"#{l.length}:" ++ hex16 (l.foldl (fun h kv => mixstep (mixstep h (keyHash kv.1)) (keyHash kv.2)) fnvInit)
+    else " ".intercalate (l.map (fun kv => showKey kv.1 ++ ":" ++ showKey kv.2))
   (if term then "" else "NOT-TERMINATED ") ++ body
 
-/-- key kind of a tree: 0 Int, 1 String, 2 the 24-byte struct; and the number of words in a value -/
+/-- key kind of a tree: 0 Int, 1 String, 2 the 24-byte struct; and the number of words in a value (0 = a String value) -/
 abbrev Kind := Nat × Nat
 
 structure DState where
@@ -173,18 +202,23 @@ def parseKey (kk : Nat) (s : String) : Option Key :=
     | _ => none
   else s.toInt?.map .i
 
-def parseVal (vw : Nat) (s : String) : Option Val := parseWords vw s
+def parseVal (vw : Nat) (s : String) : Option Val :=
+  if vw = 0 then (if s.isEmpty then none else some (.s s))
+  else if vw = 1 then s.toInt?.map .i
+  else match parseWords vw s with
+    | some (a :: b :: r) => some (.w a b r)
+    | _ => none
 
 def parseKind (s : String) : Option Kind :=
   match s.toList with
   | [c] => (if c = 'i' then some 0 else if c = 's' then some 1 else if c = 'w' then some 2 else none).map (·, 1)
   | [c, d] =>
     (if c = 'i' then some 0 else if c = 's' then some 1 else if c = 'w' then some 2 else none).bind fun kk =>
-      if d = '3' then some (kk, 3) else if d = '5' then some (kk, 5) else none
+      if d = '3' then some (kk, 3) else if d = '5' then some (kk, 5) else if d = 's' then some (kk, 0) else none
   | _ => none
 
 /-- `size(K)`, `size(V)` in bytes -/
-def kindSizes (kd : Kind) : Nat × Nat := ((if kd.1 = 2 then 24 else 8), 8 * kd.2)
+def kindSizes (kd : Kind) : Nat × Nat := ((if kd.1 = 2 then 24 else 8), if kd.2 = 0 then 8 else 8 * kd.2)
 
 def parsePairs (kd : Kind) : List String → Option (List (Key × Val))
   | [] => some []
@@ -197,7 +231,7 @@ def parsePairs (kd : Kind) : List String → Option (List (Key × Val))
 
 def showObs : Obs Key Val → String
   | .done => "ok"
-  | .val v => showWords v
+  | .val v => showKey v
   | .bool b => if b then "1" else "0"
   | .nat n => toString n
   | .items l t => showItems l t
@@ -206,9 +240,9 @@ def showObs : Obs Key Val → String
   | .noobj => "noobj"
 
 /-- run one parsed op through `step`; `dumpOf` = the tree whose dump follows the observation (mutating ops) -/
-def exec (d0 : DState) (name : String) (op : Op Key Val) (dumpOf : Option Nat) : IO DState := do
-  let d := { d0 with tags := bumpAll (opTags d0.st op) d0.tags }
-  match step Key.cmp d.st op with
+def execA (d0 : DState) (name : String) (op : AOp Key Val) (dumpOf : Option Nat) : IO DState := do
+  let d := { d0 with tags := bumpAll (opTagsA d0.st op) d0.tags }
+  match stepA CelloGen.Tree.stringAssignGuardsSelf Key.cmp d.st op with
   | none =>
     IO.println s!"O {name} ub"
     return { d with nops := d.nops + 1, nub := d.nub + 1 }
@@ -221,6 +255,15 @@ def exec (d0 : DState) (name : String) (op : Op Key Val) (dumpOf : Option Nat) :
       | none => ""
     IO.println s!"O {name} {showObs o}{tail}"
     return { d with st := st', nops := d.nops + 1 }
+
+def exec (d0 : DState) (name : String) (op : Op Key Val) (dumpOf : Option Nat) : IO DState :=
+  execA d0 name (.base op) dumpOf
+
+/-- `foreach (K in t) set(t, K, …)`: one `setA` step per key of the forward iteration; `none` = undefined in the model -/
+def walkSteps (st : Store KTree) (t : Nat) (keys : List Key) (v : Option Val) : Option (Store KTree) :=
+  keys.foldlM (fun st k =>
+    (stepA CelloGen.Tree.stringAssignGuardsSelf Key.cmp st
+      (.setA t (.own k) (match v with | some v => .val v | none => .own k))).map (·.1)) st
 
 def main (args : List String) : IO Unit := do
   let lines ← Driver.inputLines args
@@ -243,18 +286,63 @@ def main (args : List String) : IO Unit := do
           d := { d with kinds := Store.put d.kinds t kd }
         | none => IO.println "O bad-op"
       | _, _ => IO.println "O bad-op"
-    | ["set", t, k, v] =>
+    | "assignmap" :: t :: ty :: rest =>
+      match t.toNat?, parseKind ty with
+      | some t, some kd =>
+        match parsePairs kd rest, typeOf t with
+        | some kvs, some _ =>
+          d ← execA d "assignmap" (.assignMap t (kindSizes kd).1 (kindSizes kd).2 kvs) (some t)
+          d := { d with kinds := Store.put d.kinds t kd }
+        | _, _ => IO.println "O bad-op"
+      | _, _ => IO.println "O bad-op"
+    | "newodd" :: t :: ty :: rest =>
+      match t.toNat?, parseKind ty with
+      | some t, some _ => if rest.length % 2 = 1 then d ← execA d "newodd" (.newOdd t) none else IO.println "O bad-op"
+      | _, _ => IO.println "O bad-op"
+    | [opn, t, k, v] =>
       match t.toNat?.bind (fun t => (typeOf t).map (t, ·)) with
       | some (t, kd) =>
-        match parseKey kd.1 k, parseVal kd.2 v with
-        | some k, some v => d ← exec d "set" (.set t k v) (some t)
-        | _, _ => IO.println "O bad-op"
+        if opn = "set" then
+          match parseKey kd.1 k, parseVal kd.2 v with
+          | some k, some v => d ← exec d "set" (.set t k v) (some t)
+          | _, _ => IO.println "O bad-op"
+        else if opn = "setk" then
+          match parseKey kd.1 k, parseVal kd.2 v with
+          | some k, some v => d ← execA d "setk" (.setA t (.own k) (.val v)) (some t)
+          | _, _ => IO.println "O bad-op"
+        else if opn = "setv" || opn = "setkv" then
+          match parseKey kd.1 k, parseKey kd.1 v with
+          | some k, some k2 => d ← execA d opn (.setA t (if opn = "setv" then .val k else .own k) (.own k2)) (some t)
+          | _, _ => IO.println "O bad-op"
+        else IO.println "O bad-op"
       | none => IO.println "O bad-op"
     | [opn, t, k] =>
       match t.toNat? with
       | none => IO.println "O bad-op"
       | some t =>
-        if opn = "rem" || opn = "get" || opn = "mem" then
+        if opn = "getk" || opn = "memk" || opn = "remk" then
+          match (typeOf t).bind (fun kd => parseKey kd.1 k) with
+          | some k =>
+            if opn = "remk" then d ← execA d "remk" (.remK t k) (some t)
+            else if opn = "getk" then d ← execA d "getk" (.getK t k) none
+            else d ← execA d "memk" (.memK t k) none
+          | none => IO.println "O bad-op"
+        else if opn = "walk" then
+          match (typeOf t).bind (fun kd => parseVal kd.2 k), Store.get? d.st t with
+          | some v, some m =>
+            match m.iterFwd with
+            | some (kvs, true) =>
+              match walkSteps d.st t (kvs.map (·.1)) (some v) with
+              | some st' =>
+                d := { d with st := st', nops := d.nops + 1,
+                              tags := bumpAll (["walk:set-own-keys"] ++ kvs.map (fun _ => "set:key-assigned-from-itself")) d.tags }
+                match Store.get? st' t with
+                | some m' => IO.println ("O walk ok " ++ (if d.auto then dumpTree m' else s!"n={m'.nitems}"))
+                | none => IO.println "O walk ub"
+              | none => IO.println "O walk ub"; d := { d with nub := d.nub + 1 }
+            | _ => IO.println "O walk ub"; d := { d with nub := d.nub + 1 }
+          | _, _ => IO.println "O bad-op"
+        else if opn = "rem" || opn = "get" || opn = "mem" then
           match (typeOf t).bind (fun kd => parseKey kd.1 k) with
           | some k =>
             if opn = "rem" then d ← exec d "rem" (.rem t k) (some t)
@@ -285,7 +373,22 @@ def main (args : List String) : IO Unit := do
       match t.toNat? with
       | none => IO.println "O bad-op"
       | some t =>
-        if opn = "len" then d ← exec d "len" (.len t) none
+        if opn = "walkself" then
+          match Store.get? d.st t with
+          | some m =>
+            match m.iterFwd with
+            | some (kvs, true) =>
+              match walkSteps d.st t (kvs.map (·.1)) none with
+              | some st' =>
+                d := { d with st := st', nops := d.nops + 1,
+                              tags := bumpAll (["walk:set-own-keys-own-values"] ++ kvs.map (fun _ => "set:value-assigned-from-itself")) d.tags }
+                match Store.get? st' t with
+                | some m' => IO.println ("O walkself ok " ++ (if d.auto then dumpTree m' else s!"n={m'.nitems}"))
+                | none => IO.println "O walkself ub"
+              | none => IO.println "O walkself ub"; d := { d with nub := d.nub + 1 }
+            | _ => IO.println "O walkself ub"; d := { d with nub := d.nub + 1 }
+          | none => IO.println "O bad-op"
+        else if opn = "len" then d ← exec d "len" (.len t) none
         else if opn = "iter" then d ← exec d "iter" (.iter t) none
         else if opn = "riter" then d ← exec d "riter" (.riter t) none
         else if opn = "del" then
